@@ -3,6 +3,8 @@ package main
 // Self-test corpus: must-fail mutants and must-pass (harmless) edits, applied as overlays (nothing is written to /repo).
 
 import (
+	"runtime/debug"
+	"golang.org/x/tools/go/ssa"
 	"encoding/json"
 	"flag"
 	"fmt"
@@ -116,6 +118,10 @@ func cmdSelftest(args []string) {
 		fmt.Printf("SELFTEST %-10s %s [%s] expect=%q failed=%v (%.0fs)\n", verdict, m.Name, m.Property, m.Expect, show, time.Since(start).Seconds())
 		results = append(results, map[string]interface{}{"name": m.Name, "property": m.Property, "expect": m.Expect, "verdict": verdict, "failed": show})
 		os.RemoveAll(outDir)
+		// every mutant loads its own SSA program: drop what refers to it (the whole corpus once grew to 65 GB and was killed)
+		res = nil
+		singleDefCache = map[*ssa.Function]map[string]ssa.Value{}
+		debug.FreeOSMemory()
 	}
 	writeJSON(filepath.Join(verifDir, "out", "selftest-results.json"), results)
 	if bad > 0 {
